@@ -722,6 +722,17 @@ def c10(rep, tier):
             return
         else:
             why.append('does not depend on the pass number: expansions share temporaries')
+    # the name identifies the definition it comes from: file and line of a per-definition token
+    def_fields = set()
+    for x in walk_expr(text_e):
+        if x.get('k') == 'member' and x.get('mk') == 'field' and x.get('name') in ('file', 'line'):
+            root, path = field_chain(x)
+            if root is not None and strip_casts(root).get('d') != loopvar['d']:
+                def_fields.add(x['name'])
+    if def_fields and def_fields != {'file', 'line'}:
+        why.append('the name carries the %s of the definition but not its %s: two definitions that agree on it (macros of two files on equal line numbers) give their temporaries the '
+                   'same names, which meet as soon as both have been expanded into one stream with equal step numbers (library macros applied in a first call, the program\'s in a second)'
+                   % (sorted(def_fields)[0], sorted({'file', 'line'} - def_fields)[0]))
     extra = sorted(deps_tok - {'text'})
     if extra:
         why.append('depends on per-token attribute(s) %s of the body token: one #n splits into several variables when the body spans '
@@ -1448,6 +1459,12 @@ def detect_rule(G, mm):
                 if o_ is not None and o_ is not e:
                     return cval(o_, i_, N_, K_, depth + 1)
                 raise _NoEval(show(e))
+            if k_ == 'cond':
+                return cval(e['t'], i_, N_, K_, depth + 1) if cval(e['c'], i_, N_, K_, depth + 1) else cval(e.get('f') if e.get('f') is not None else e['e'], i_, N_, K_, depth + 1)
+            if is_call(e, '::empty') and e.get('obj') is not None and strip_casts(e['obj']).get('d') == inp['d']:
+                return N_ == 0
+            if k_ == 'un' and e['op'] == '!':
+                return not cval(e['e'], i_, N_, K_, depth + 1)
             if k_ == 'bin' and e['op'] in ('+', '-', '*', '<', '<=', '>', '>=', '==', '!=', '&&', '||'):
                 a_, b_ = cval(e['l'], i_, N_, K_, depth + 1), cval(e['r'], i_, N_, K_, depth + 1)
                 import operator as _o
@@ -1493,6 +1510,18 @@ def detect_rule(G, mm):
             why.append('the position counter is changed inside the loop body (%s): start positions are skipped' % show(e)[:50])
     # parse from begin() + counter
     pc = [e for e in walk_all_exprs(bfn['body'] if helper else L['body']) if is_call(e, '::parse')]
+    # every start position is handed to the parser: a test in front of the parse that skips positions by comparing the TEXT of the
+    # input token with the text of a pattern token is wrong for every kind that matches by kind only (keywords in another spelling)
+    if pc and pc[0].get('sid') in bg.by_sid:
+        for cond, label, cn in bg.guards_of(bg.by_sid[pc[0]['sid']]):
+            if getattr(cn, 'stmt', None) is L:
+                continue
+            ctext = show(bg.expanded(cond)) if hasattr(bg, 'expanded') else show(cond)
+            if '.text' in ctext and 'rule' in ctext:
+                why.append('positions are skipped without parsing when the text of the input token differs from the text of the first pattern token (%s): literal pattern tokens other than '
+                           'identifiers, integers and operator characters match by kind, so a keyword written in another of its spellings is no longer recognised' % show(cond)[:80])
+            elif ('.t' in ctext or 'rule' in ctext) and not any(is_call(x, '::parse') for x in walk_expr(cond)):
+                unk.append('a test in front of the parse skips start positions (%s)' % show(cond)[:60])
     from_pos = False
     for x in walk_expr(pc[0]):
         if x.get('k') in ('bin', 'call') and x.get('op') == '+':
@@ -1587,6 +1616,7 @@ def c12(rep, tier):
     A = rep.rule('C12.a', 'a detector reports MACRO_COMPILE_NON_LR at its first pattern token exactly when table generation reported a conflict', floor=1)
     non_lr_error_rule(mm, rep, A)
     pattern_verdicts_rule(rep, mm, tier)
+    application_unconditional_rule(rep, mm)
     G2 = rep.rule('C12.g', 'on every path through the detector\'s constructor the conflict list is the result of generating the tables of the parser '
                            'the detector then uses (no path installs a parser without its verdict)', floor=1)
     ctor = mm.facts.fn('MacroDetector::MacroDetector')
@@ -2030,6 +2060,11 @@ def prefix_columns_rule(mm, E, f, lams):
             continue
         reach = True
         unk = None
+        cell_guard = [cond for cond, label, cn in g.guards_of(ev) if isinstance(label, bool) and 'action[' in show(cond)]
+        if cell_guard:
+            E.violation('generateParseTables: %s' % show(ev.e)[:50], 'the placement of a completed item is skipped depending on what the cell already holds (%s): the conflict between this item '
+                        'and the action that is already there is never recorded, so an ambiguous pattern is accepted' % show(cell_guard[0])[:60], W(f, ev.e, mm.facts),
+                        witness={'pattern': "<P> ';'"})
         for cond, label, cn in g.guards_of(ev):
             if not isinstance(label, bool):
                 continue
@@ -2374,6 +2409,28 @@ def identifier_only_result(mm, h):
 
 
 # ============================================================================= pattern verdicts (C12.k)
+def application_unconditional_rule(rep, mm):
+    """the verdict on the macro definitions is part of macro application: the front end runs it on every path, also when the
+    program text is empty"""
+    R = rep.rule('C12.l', 'parse() applies the macros on every path (the conflict errors of the definitions are produced there)', floor=1)
+    try:
+        pf = Facts(['Compiler/src/parse.cpp'])
+    except AnalysisBroken as ex:
+        R.unknown('parse', str(ex))
+        return
+    rep.note_facts(pf)
+    parse = pf.fn('Theo::parse')
+    from .props_c02 import Multi as _M
+    g = _M(pf).cfg(parse)
+    calls = [ev for ev in g.calls() if is_call(ev.e, 'Theo::apply_macros')]
+    if not calls:
+        R.unknown('parse', 'no call of apply_macros')
+        return
+    R.check(any(g.on_all_paths(ev) and not ev.conditional for ev in calls), 'parse: apply_macros', 'called on every path through parse()',
+            'macro application is skipped on some path (e.g. when no program text is left after the definitions): an ambiguous macro in a file of definitions only is never reported',
+            W(parse, calls[0].e, pf), witness={'input': 'a library file that only contains DEFINE ... END DEFINE with an ambiguous pattern'})
+
+
 def pattern_verdicts_rule(rep, mm, tier):
     """Which patterns get a conflict depends on the shape of the slot grammar, not only on its language (a right-recursive list
     rule rejects `<ARGS> , x`).  The grammar built by MacroDetector's constructor is read from the source and, for every
